@@ -140,6 +140,11 @@ func runC19(c *core.Ctx) {
 			if nidx > 0 {
 				index = nidx == guarded
 			}
+			if !lower && member && classClampsToStep(p, fn) {
+				// class(size) == size with a class function that maps everything up to the step to the step
+				// already rejects sizes below the step
+				lower = true
+			}
 			c.Check(lower, "R1", name+"/lower-bound", p.InstrPos(st), "sizes below the step are rejected", "Put stores objects smaller than the smallest size class (handed out for a larger request)")
 			c.Check(member, "R1", name+"/class-membership", p.InstrPos(st), "only sizes that are a size class are stored (class(size) == size)", "Put indexes the shard by the raw capacity without checking that it is one of the size classes: a 1500-capacity buffer lands in the shard that serves Get(2000)")
 			c.Check(index, "R1", name+"/index-bound", p.InstrPos(st), "shard index guarded by the shard count", "Put indexes the shard slice without a bound check")
@@ -446,4 +451,58 @@ func instName(fn *ssa.Function) string {
 		s = s[i+1:]
 	}
 	return s
+}
+
+// classClampsToStep: every function stored into a func-typed field of the pool struct used by fn has a
+// branch `i <= s` (or `i < s`) on its parameter whose taken side returns s.
+func classClampsToStep(p *core.Prog, fn *ssa.Function) bool {
+	var field *types.Var
+	core.AllInstrs(fn, func(in ssa.Instruction) {
+		if call, ok := in.(*ssa.Call); ok && !call.Call.IsInvoke() {
+			if f, _ := core.FieldOf(call.Call.Value); f != nil {
+				if _, isFn := f.Type().Underlying().(*types.Signature); isFn {
+					field = f
+				}
+			}
+		}
+	})
+	if field == nil {
+		return false
+	}
+	n, okAll := 0, true
+	for _, g := range p.Funcs {
+		for _, st := range core.StoresToField(g, field) {
+			cf := core.FuncValue(st.Val, nil)
+			if cf == nil || cf.Blocks == nil || len(cf.Params) == 0 {
+				okAll = false
+				continue
+			}
+			n++
+			prm := cf.Params[len(cf.Params)-1]
+			clamps := false
+			for _, ifi := range core.Ifs(cf) {
+				cd := core.CondOf(ifi)
+				if (cd.Op != token.LEQ && cd.Op != token.LSS) || !core.SameValue(cd.X, prm) {
+					continue
+				}
+				// the taken side returns cd.Y
+				t, _ := core.Search(nil, cd.True, func(x ssa.Instruction) core.Action {
+					if ret, ok := x.(*ssa.Return); ok {
+						if len(ret.Results) == 1 && core.SameValue(ret.Results[0], cd.Y) {
+							return core.Barrier
+						}
+						return core.Target
+					}
+					return core.Continue
+				}, nil)
+				if t == nil {
+					clamps = true
+				}
+			}
+			if !clamps {
+				okAll = false
+			}
+		}
+	}
+	return n > 0 && okAll
 }
